@@ -45,12 +45,14 @@ var (
 			return &Stack{}
 		},
 	}
-	bufferPool   = sync.Pool{}
-	programCache = caching.CreateProgramCache()
+	bufferPool     = sync.Pool{}
+	programCache   = caching.CreateProgramCache() // programs for values that are not addressable
+	programCachePv = caching.CreateProgramCache() // programs for addressable ("pointer") values
 )
 
 func ResetProgramCache() {
 	programCache.Reset()
+	programCachePv.Reset()
 }
 
 func NewBytes() *[]byte {
